@@ -126,9 +126,10 @@ func (compilation *compilation) generateIteaName() string {
 	return "$itea" + strconv.Itoa(compilation.currentIteaIndex)
 }
 
-// finalizeUsingStatements finalizes the 'using' statements neutralizing 'itea'
-// declarations that should not be emitted. It also returns a type checking
-// error if the 'itea' identifier of a 'using' statement is not used.
+// finalizeUsingStatements finalizes the 'using' statements of the file checked
+// by tc, neutralizing 'itea' declarations that should not be emitted. It also
+// returns a type checking error if the 'itea' identifier of a 'using'
+// statement is not used.
 func (compilation *compilation) finalizeUsingStatements(tc *typechecker) error {
 	names := make([]string, 0, len(compilation.iteaToUsingCheck))
 	for name := range compilation.iteaToUsingCheck {
@@ -137,6 +138,10 @@ func (compilation *compilation) finalizeUsingStatements(tc *typechecker) error {
 	sort.Strings(names)
 	for _, name := range names {
 		uc := compilation.iteaToUsingCheck[name]
+		if uc.path != tc.path {
+			// The statement is finalized when the check of its file ends.
+			continue
+		}
 		if !uc.used {
 			return tc.errorf(uc.pos, "predeclared identifier itea not used")
 		}
